@@ -533,24 +533,83 @@ impl<'a> Quad for Trusted<GeneralizedQuad<'a>> {
 #[derive(Clone, Copy, Debug)]
 pub struct Trusted<T>(pub T);
 
+fn invalid_iri_in_triple<'a>(t: &RioTriple<'a>) -> Option<&'a str> {
+    use rio_api::model::Subject;
+    let check = |iri: &'a str| Some(iri).filter(|iri| Iri::new(*iri).is_err());
+    match t.subject {
+        Subject::NamedNode(n) => check(n.iri),
+        Subject::Triple(t) => invalid_iri_in_triple(t),
+        Subject::BlankNode(_) => None,
+    }
+    .or_else(|| check(t.predicate.iri))
+    .or_else(|| match t.object {
+        RioTerm::NamedNode(n) => check(n.iri),
+        RioTerm::Literal(Literal::Typed { datatype, .. }) => check(datatype.iri),
+        RioTerm::Triple(t) => invalid_iri_in_triple(t),
+        _ => None,
+    })
+}
+
+fn invalid_iri_in_generalized<'a>(t: &GeneralizedTerm<'a>) -> Option<&'a str> {
+    let check = |iri: &'a str| Some(iri).filter(|iri| IriRef::new(*iri).is_err());
+    match t {
+        GeneralizedTerm::NamedNode(n) => check(n.iri),
+        GeneralizedTerm::Literal(Literal::Typed { datatype, .. }) => check(datatype.iri),
+        GeneralizedTerm::Triple(spo) => spo.iter().find_map(invalid_iri_in_generalized),
+        _ => None,
+    }
+}
+
+/// Items of Rio-based sources whose IRIs can be checked
+/// (by the adapters of back-ends that build some IRIs without validating them,
+/// e.g. by concatenating a namespace and a local name).
+pub trait CheckIris {
+    /// The first IRI of this item that is not valid
+    /// (as an absolute IRI for strict items, as an IRI reference for generalized items), if any.
+    fn first_invalid_iri(&self) -> Option<&str>;
+}
+
+impl CheckIris for Trusted<RioTriple<'_>> {
+    fn first_invalid_iri(&self) -> Option<&str> {
+        invalid_iri_in_triple(&self.0)
+    }
+}
+
+impl CheckIris for Trusted<RioQuad<'_>> {
+    fn first_invalid_iri(&self) -> Option<&str> {
+        let q = &self.0;
+        let t = RioTriple {
+            subject: q.subject,
+            predicate: q.predicate,
+            object: q.object,
+        };
+        invalid_iri_in_triple(&t).or_else(|| match q.graph_name {
+            Some(GraphName::NamedNode(n)) => Some(n.iri).filter(|iri| Iri::new(*iri).is_err()),
+            _ => None,
+        })
+    }
+}
+
+impl CheckIris for Trusted<GeneralizedQuad<'_>> {
+    fn first_invalid_iri(&self) -> Option<&str> {
+        let q = &self.0;
+        [
+            Some(&q.subject),
+            Some(&q.predicate),
+            Some(&q.object),
+            q.graph_name.as_ref(),
+        ]
+        .into_iter()
+        .flatten()
+        .find_map(invalid_iri_in_generalized)
+    }
+}
+
 impl<'a> Trusted<RioTriple<'a>> {
     /// The first IRI of this triple that is not a valid absolute IRI, if any
     /// (to be checked by the adapters of back-ends that do not validate IRIs themselves).
     pub fn invalid_iri(&self) -> Option<&'a str> {
-        use rio_api::model::Subject;
-        let s = match self.0.subject {
-            Subject::NamedNode(n) => Some(n.iri),
-            _ => None,
-        };
-        let o = match self.0.object {
-            RioTerm::NamedNode(n) => Some(n.iri),
-            RioTerm::Literal(Literal::Typed { datatype, .. }) => Some(datatype.iri),
-            _ => None,
-        };
-        [s, Some(self.0.predicate.iri), o]
-            .into_iter()
-            .flatten()
-            .find(|iri| Iri::new(*iri).is_err())
+        invalid_iri_in_triple(&self.0)
     }
 
     /// The first blank node identifier of this triple that is not a valid [`BnodeId`], if any
